@@ -1339,6 +1339,16 @@ def gen_ctor_spec(rng):
         else:
             shape = (rows, cols) if rng.random() < 0.7 else (cols, rows)
             init = ("M", shape[0], shape[1], [rng.choice([F(0), G.grid(rng, 0, mx)]) for _ in range(n)])
+        if n > 400 and init is not None:
+            # every non-empty well of a multi-row plate is its own component (n arrays of n fractions): keep the
+            # number of filled wells of very large plates small, the state dump is quadratic in it
+            keep = set(rng.sample(range(n), 25))
+            if init[0] == "S":
+                init = ("V", [init[1] if i in keep else F(0) for i in range(n)])
+            elif init[0] == "V":
+                init = ("V", [v if i in keep else F(0) for i, v in enumerate(init[1])])
+            else:
+                init = ("M", init[1], init[2], [v if i in keep else F(0) for i, v in enumerate(init[3])])
         flat = [F(0)] * n if init is None else [init[1]] * n if init[0] == "S" else list(init[1] if init[0] == "V" else init[3])
         names = {}
         for i in range(n):
@@ -1462,10 +1472,10 @@ def ctor_oracle(spec, L, err):
     h = L.history
     if len(h) != 1 or h[0][0] != "initial" or [F(float(v)) for v in h[0][1].flatten()] != flat:
         return "history is not exactly the initial state"
-    comp = L.composition
+    comp = {k: [float(x) for x in arr.flatten()] for k, arr in L.composition.items()}
     for i in range(n):
-        ones = [k for k, arr in comp.items() if float(arr.flatten()[i]) == 1.0]
-        nz = [k for k, arr in comp.items() if float(arr.flatten()[i]) != 0.0]
+        ones = [k for k, arr in comp.items() if arr[i] == 1.0]
+        nz = [k for k, arr in comp.items() if arr[i] != 0.0]
         if flat[i] > 0 and (len(ones) != 1 or nz != ones):
             return f"well {i} is non-empty but has components {nz}"
         if flat[i] == 0 and nz:
